@@ -4,7 +4,7 @@ package service
 // and block-handler properties are executed twice on the same symbolic inputs under independent symbolic map
 // orders and host-clock readings, in one process; both executions must end in the same stores and balances
 // (verifSelfCompose, harness/rt).
-func VerifC11_SelfT_C12_Service() { verifSelfCompose(VerifC12_Service) }
+func VerifC11_SelfT_C12_Service()    { verifSelfCompose(VerifC12_Service) }
 func VerifC11_Self_C08_BatchExpiry() { verifSelfCompose(VerifC08_BatchExpiry) }
-func VerifC11_Self_C08_Respond() { verifSelfCompose(VerifC08_Respond) }
-func VerifC11_Self_C08_Callback() { verifSelfCompose(VerifC08_Callback) }
+func VerifC11_Self_C08_Respond()     { verifSelfCompose(VerifC08_Respond) }
+func VerifC11_Self_C08_Callback()    { verifSelfCompose(VerifC08_Callback) }
